@@ -439,6 +439,12 @@ Reconfigure ==
 \* file that cannot be read) changes nothing: the rule sets installed before
 \* stay installed, the verdicts stay those of the configuration in effect.
 ReconfigureFails == p.stage = "ready" /\ UNCHANGED vars
+\* The client registry is edited (other persistent clients, identified by
+\* subnets around or inside the one under test, are added, updated = removed
+\* and added again, removed) in a way that leaves Persistent(cfg, req) -- whose
+\* request it is: the most specific identifier decides -- unchanged for every
+\* request: nothing changes.
+EditClients == p.stage = "ready" /\ UNCHANGED vars
 \* Protection is switched through either of two entry points: the protection
 \* API (on / off / off for a duration) and the DNS configuration API (the flag
 \* only).  cfg.prot is the resulting state; whether filtering applies depends
@@ -474,7 +480,8 @@ PauseExpires == /\ p.stage = "ready" /\ cfg.prot = "paused"
 WriteBack    == /\ p.stage = "ready" /\ cfg.prot = "expired"
                 /\ cfg' = [cfg EXCEPT !.prot = "on"]
                 /\ UNCHANGED <<req, p, tab, bk, live>>
-NextHist == Boot \/ Ask \/ Repeat \/ Reconfigure \/ ReconfigureFails \/ ProtAPI \/ PauseExpires \/ WriteBack
+NextHist == Boot \/ Ask \/ Repeat \/ Reconfigure \/ ReconfigureFails \/ EditClients
+              \/ ProtAPI \/ PauseExpires \/ WriteBack
               \/ Finish
               \/ Before \/ Initial \/ FilterBefore \/ Upstream \/ FilterAfter \/ Log
 SpecHist == Init /\ [][NextHist]_vars
